@@ -93,7 +93,7 @@ def gen_prec(rng, tier):
         yield "mpf_set_prec_raw %s %x %x" % (F(u), lowbits, k)
 
 def gen_addsub(rng, tier):
-    reps = 3 if tier == "quick" else 12
+    reps = 6 if tier == "quick" else 30
     for rprec in PRECS + [rng.randrange(6, 14)]:
         eds = list(range(-(rprec + 3), rprec + 4)) + [s * h for h in HUGE for s in (1, -1)]
         for ed in eds:
@@ -126,7 +126,7 @@ def tail(rng, n):
 
 def gen_cancel(rng, tier):
     """nearly cancelling operands for mpf_sub (and mpf_add with opposite signs); limbs written most significant first"""
-    reps = 2 if tier == "quick" else 8
+    reps = 4 if tier == "quick" else 20
     def emit(rprec, ube, vbe, uexp, vexp):
         # big-endian limb lists -> operands; strip to satisfy top != 0
         while ube and ube[0] == 0: ube = ube[1:]; uexp -= 1
@@ -169,7 +169,7 @@ def gen_cancel(rng, tier):
                 yield from emit(rprec, c + [0] * 2, c, e, e)
 
 def gen_muldiv(rng, tier):
-    reps = 40 if tier == "quick" else 200
+    reps = 80 if tier == "quick" else 500
     for rprec in PRECS + [rng.randrange(6, 14)]:
         for _ in range(reps):
             u = rand_opnd(rng, rprec, exp=rng.choice([0, 1, -1, 7, rng.randrange(-(1 << 40), 1 << 40)]))
@@ -199,7 +199,7 @@ def gen_muldiv(rng, tier):
             yield from both("mpf_ui_div %x 0 %s %x" % (rprec, F(z), rand_limb(rng)))   # -> !div0
 
 def gen_sqrt(rng, tier):
-    reps = 30 if tier == "quick" else 150
+    reps = 60 if tier == "quick" else 400
     for rprec in PRECS + [rng.randrange(6, 14)]:
         for _ in range(reps):
             n = rng.choice([1, 2, rprec, 2 * rprec - 2, 2 * rprec - 1, 2 * rprec, 2 * rprec + 1, 2 * rprec + 3, rng.randrange(1, 2 * rprec + 4)])
@@ -220,7 +220,7 @@ def gen_sqrt(rng, tier):
 UIS = [0, 1, 2, 1 << 63, M, M - 1, (1 << 63) - 1, 1 << 32]
 
 def gen_ui(rng, tier):
-    reps = 3 if tier == "quick" else 12
+    reps = 5 if tier == "quick" else 25
     for rprec in PRECS + [rng.randrange(6, 14)]:
         for uexp in list(range(-(rprec + 3), rprec + 5)) + [-(1 << 40), 1 << 40, -1000, 1000]:
             for _ in range(reps):
@@ -263,7 +263,7 @@ def gen_ui(rng, tier):
             if w < (1 << 63): yield from both("mpf_set_si %x %x" % (rprec, w))
 
 def gen_exact(rng, tier):
-    reps = 60 if tier == "quick" else 300
+    reps = 100 if tier == "quick" else 600
     for rprec in PRECS + [rng.randrange(6, 14)]:
         for _ in range(reps):
             n = rng.choice([1, 2, rprec - 1, rprec, rprec + 1, rprec + 2, rprec + 4])
@@ -307,7 +307,7 @@ def gen_exact(rng, tier):
         yield from both("mpf_integer_p %s" % z); yield from both("mpf_cmp %s %s" % (z, z))
 
 def gen_set(rng, tier):
-    reps = 40 if tier == "quick" else 200
+    reps = 60 if tier == "quick" else 400
     for rprec in PRECS + [rng.randrange(6, 14)]:
         for _ in range(reps):
             nz = rng.choice([0, 1, rprec - 1, rprec, rprec + 1, rprec + 2, rprec + 5])
